@@ -19,7 +19,9 @@ class EnsRank(Family):
 
     def instances(self, tier):
         shapes = [(1, 1), (1, 2), (2, 1), (2, 2), (3, 1)] + ([(3, 2), (2, 3), (4, 1)] if tier == 'thorough' else [])
-        return [dict(nval=n, ncol=m) for n, m in shapes]
+        # a large tie tolerance (0.25 > 0.5/m^2) as well: the 0 / 0.5 / 1 mapping of the comparison must not depend on it
+        return [dict(nval=n, ncol=m) for n, m in shapes] + [dict(nval=2, ncol=2, eps=0.25), dict(nval=3, ncol=1, eps=0.25)] + \
+               ([dict(nval=2, ncol=3, eps=0.25)] if tier == 'thorough' else [])
 
     def cost(self, inst):
         return 9 ** (inst['nval'] * inst['ncol'])
@@ -32,12 +34,13 @@ class EnsRank(Family):
         for a in range(len(flat)):
             for b in range(a + 1, len(flat)):
                 d = flat[a].num - flat[b].num
-                S.assume(z3.Or(d == 0, d > 2 * EPS, d < -2 * EPS))
+                eps = Fraction(inst.get('eps', EPS))
+                S.assume(z3.Or(d == 0, d > 2 * eps, d < -2 * eps))
         return dict(sim=sim)
 
     def args(self, inst, I):
         n, m = inst['nval'], inst['ncol']
-        return [Scalar('double', EPS), Scalar('i32', n), Scalar('i32', m), Buf('sim', 'double', [v for r in I['sim'] for v in r]),
+        return [Scalar('double', inst.get('eps', EPS)), Scalar('i32', n), Scalar('i32', m), Buf('sim', 'double', [v for r in I['sim'] for v in r]),
                 Buf('fmat', 'double', [0.0] * (n * n), out=True), Buf('ranks', 'double', [0.0] * n, out=True)]
 
     def spec(self, inst, I, O):
@@ -408,7 +411,55 @@ def part_python(tier, seed, workdir):
     return _run_cases('C10', cases(tier), tier, seed)
 
 
-PARTS = [part_python]
+def wrapper_dscore_pit(tier):
+    """metrics.dscore (ensemble branch): the kernel gets the tolerance, a float64 copy of the forecasts and zeroed fmat / ranks buffers, and the
+    score is (Pearson correlation of the observation ranks with the KERNEL's ranks + 1) / 2 - also for rank vectors with ties, which a second
+    ranking would change.  metrics.pit: the pseudo-PIT flag at thresholds of any magnitude (the comparison 'at or below the threshold' must not
+    be lost to rounding for |censor| >= 2).  Concrete scenarios."""
+    import math
+    import numpy as np
+    from hydrodiy.stat import metrics as M
+    from engine.contracts import Recorder, patched_module
+    out = []
+    for obs, franks in (([10., 2., 30., 25., 12.], [3., 1., 4., 4., 3.]), ([1., 2., 3., 4.], [1.5, 1.5, 3.5, 3.5]), ([5., 1., 3.], [3., 1., 2.]),
+                        ([1., 2., 3., 4., 5., 6.], [2., 1., 2., 6., 5., 5.])):
+        n = len(obs)
+        sim = np.column_stack([np.array(obs) + 0.1, np.array(obs) - 0.2, np.array(obs)[::-1]])
+        for eps in (1e-6, 0.01):
+            def ens(c, franks=franks):
+                c.raw_args[3][:] = franks
+                return 0
+            rec = Recorder({'ensrank': ens})
+            with patched_module(M, 'c_hydrodiy_stat', rec):
+                D = M.dscore(np.array(obs), sim, eps=eps)
+            c = rec.calls[-1]
+            oranks = [sorted(obs).index(v) for v in obs]
+            mo, mf = sum(oranks) / n, sum(franks) / n
+            cov = sum((a - mo) * (b - mf) for a, b in zip(oranks, franks))
+            want = (cov / math.sqrt(sum((a - mo) ** 2 for a in oranks) * sum((b - mf) ** 2 for b in franks)) + 1) / 2
+            tag = dict(obs=obs, kernel_ranks=franks, eps=eps)
+            out.append(('dscore=(pearson(obs-ranks,kernel-ranks)+1)/2', abs(float(D) - want) <= 1e-12, dict(tag, got=float(D), want=want)))
+            out.append(('ensrank-gets-tolerance-forecasts-and-zeroed-buffers', float(c.args[0]) == eps and c.args[1].dtype == np.float64 and
+                        np.array_equal(c.args[1], sim) and c.args[2].shape == (n, n) and not c.args[2].any() and c.args[3].shape == (n,) and not c.args[3].any(), tag))
+    for censor in (0.0, 0.5, 2.0, 5.0, -3.0, 1e6):
+        ens = np.array([[censor - 1.0, censor + 1.0], [censor + 1.0, censor + 2.0], [censor, censor + 2.0], [censor + 1.0, censor + 3.0]])
+        obs = np.array([censor, censor, censor - 1.0, censor + 0.5])
+        np.random.seed(1)
+        _, sudo = M.pit(obs, ens, random=True, censor=censor)
+        # flagged exactly when the observation and at least one member are at or below the threshold
+        out.append(('pseudo-pit-flag-at-or-below-threshold', [bool(b) for b in sudo] == [True, False, True, False], dict(censor=censor, got=[bool(b) for b in sudo])))
+    return out
+
+
+CONTRACTS = [wrapper_dscore_pit]
+
+
+def contracts_part(tier, seed, workdir):
+    from engine.contracts import run_contracts
+    return run_contracts('C10', 'harness.C10', CONTRACTS, tier)
+
+
+PARTS = [part_python, contracts_part]
 META['explanation'] += ('; engine B: the real metrics.pit(random=True) with the jitter an arbitrary value of its range and symbolic observations, members, '
                         'plotting constant and censoring threshold (PIT in [0,1], = (k+0.5-c)/(1-c+m) with k the members below the observation, pseudo flag iff '
                         'the observation and at least one member are at or below the threshold) and metrics.dscore for single-member forecasts (score in '
